@@ -29,6 +29,8 @@ pub enum Fault {
     ResponseTruncated(usize),
     /// the handler returns an error for this request
     HandlerError,
+    /// the client asks for an in-memory stream with this (degenerate) buffer size, writes a request into it and leaves
+    ConnectBuf(usize),
 }
 
 impl Fault {
@@ -40,6 +42,7 @@ impl Fault {
             Fault::Bytes { name, bytes, stall } => format!("{name}[{}]-then-{}", bytes.len(), if *stall { "stall" } else { "close" }),
             Fault::ResponseTruncated(n) => format!("response-read-{n}-then-close"),
             Fault::HandlerError => "handler-error".into(),
+            Fault::ConnectBuf(n) => format!("connect-with-buffer-{n}"),
         }
     }
     fn class(&self) -> String {
@@ -50,6 +53,7 @@ impl Fault {
             Fault::Bytes { name, stall, .. } => format!("{name}-then-{}", if *stall { "stall" } else { "close" }),
             Fault::ResponseTruncated(_) => "response-truncated".into(),
             Fault::HandlerError => "handler-error".into(),
+            Fault::ConnectBuf(_) => "connect-with-degenerate-buffer".into(),
         }
     }
 }
@@ -114,6 +118,18 @@ async fn faulty_client(client: DuplexClient, fault: Fault, obs: Obs, stall: Gate
         }
         Fault::AcceptClose => {
             let _ = client.connect(1024).await;
+        }
+        Fault::ConnectBuf(n) => {
+            // a zero-capacity stream can never carry a byte: one poll of the write is all it gets
+            if let Ok(mut s) = client.connect(n).await {
+                let bytes = good_request_bytes(77);
+                let _ = futures_util::future::poll_fn(|cx| {
+                    let _ = tokio::io::AsyncWrite::poll_write(Pin::new(&mut s), cx, &bytes);
+                    Poll::Ready(())
+                })
+                .await;
+                drop(s);
+            }
         }
         Fault::Bytes { bytes, stall: do_stall, .. } => {
             if let Ok(mut s) = client.connect(1024).await {
@@ -288,6 +304,8 @@ pub fn faults(thorough: bool, tls: Option<&super::tlsfix::TlsFixture>) -> Vec<(A
         }
         v.push((acc, Fault::AcceptClose));
         v.push((acc, Fault::HandlerError));
+        v.push((acc, Fault::ConnectBuf(0)));
+        v.push((acc, Fault::ConnectBuf(1)));
         v.push((acc, Fault::Bytes { name: "garbage", bytes: b"\x00\xff\x10garbage\r\n\r\n".to_vec(), stall: false }));
         v.push((acc, Fault::Bytes { name: "garbage", bytes: b"\x00\xff\x10garbage\r\n\r\n".to_vec(), stall: true }));
         v.push((acc, Fault::Bytes { name: "h2-preface-then-garbage", bytes: [crate::props::iomc::PREFACE, b"xxxxxxxxxxxxxxxx"].concat(), stall: false }));
